@@ -247,17 +247,25 @@ Definition address_str (w : pwidth) (x : Z) : list Z :=
     end.
 
 (* ------------------------------------------------------------------ the process state *)
+Record inline := { in_function : list Z; in_file : option (list Z); in_line : option Z }.
 Record frame := {
   fr_instr : Z;
-  fr_module : option (list Z * Z);          (* basename of the module name, base_of_image *)
+  fr_module : option (list Z * Z);          (* module.name (full; print_json takes the basename), base_of_image *)
   fr_function : option (list Z);
   fr_function_base : option Z;
   fr_file : option (list Z);
   fr_line : option Z;
   fr_trust : Z;                              (* FrameTrust variant index; rendered by TRUST_NAMES *)
-  fr_unloaded : list (list Z * list Z) }.    (* BTreeMap name -> BTreeSet offsets *)
-Record thread := { th_id : Z; th_name : option (list Z); th_frames : list frame }.
-Record modul := { m_base : Z; m_size : Z; m_name : list Z }.
+  fr_unloaded : list (list Z * list Z);      (* BTreeMap name -> BTreeSet offsets *)
+  fr_inlines : list inline }.
+Record thread := { th_id : Z; th_name : option (list Z); th_last_error : option (list Z); th_frames : list frame }.
+(* a module of the module list: code_file() (full; print_json takes the basename), debug_file().unwrap_or(""),
+   debug_identifier().unwrap_or_default().breakpad().to_string(), code_identifier().unwrap_or_default().as_str(), version() *)
+Record modul := { m_base : Z; m_size : Z; m_file : list Z; m_debug_file : list Z; m_debug_id : list Z;
+                  m_code_id : list Z; m_version : option (list Z) }.
+(* SymbolStats, keyed by module basename in ProcessState::symbol_stats *)
+Record symstat := { ss_url : option (list Z); ss_loaded : bool; ss_corrupt : bool;
+                    ss_extra : option (list Z * list Z) }.       (* extra_debug_info: debug_file, breakpad id text *)
 Record access := { a_addr : Z; a_size : option Z; a_guard : bool; a_type : Z }.   (* MemoryAccessType variant index *)
 Inductive adjusted := AdjNonCanonical (a : Z) | AdjNull (off : Z).
 Inductive ipupdate := IpuNone | IpuUpdate (addr : Z) (guard : bool).
@@ -278,6 +286,13 @@ Record sysinfo := {
   sy_cpu_info : option (list Z);
   sy_cpu_count : Z;
   sy_microcode : option Z }.
+Inductive lim := LErr | LUnlimited | LLimited (n : Z).
+Record limit := { li_name : list Z; li_soft : lim; li_hard : lim; li_unit : list Z }.
+(* RawMacCrashInfo through its accessors (0 / empty string = None) *)
+Record macrec := { mc_thread : option Z; mc_dialog : option Z; mc_abort : option Z; mc_module : option (list Z);
+                   mc_message : option (list Z); mc_signature : option (list Z); mc_backtrace : option (list Z);
+                   mc_message2 : option (list Z) }.
+Record handle := { h_handle : option Z; h_type : option (list Z); h_object : option (list Z) }.
 Record state := {
   s_width : pwidth;
   s_pid : option Z;
@@ -286,12 +301,18 @@ Record state := {
   s_registers : list (list Z * Z * nat);     (* valid general-purpose registers of the requesting
                                                 thread's frame 0: name, value, hex digits *)
   s_modules : list modul;
-  s_unloaded : list modul;
+  s_unloaded : list modul;                   (* m_file = name (no basename); debug fields / version unused *)
   s_crash : option crash;
   s_sys : sysinfo;
   s_lsb : option (list Z * list Z * list Z * list Z);   (* id, release, codename, description *)
   s_mapcount : option Z;
-  s_cert : bool }.
+  s_certinfo : list (list Z * list Z);       (* cert_info: module name -> subject *)
+  s_symstats : list (list Z * symstat);      (* symbol_stats: module basename -> stats *)
+  s_assertion : option (list Z);
+  s_limits : option (list limit);            (* linux_proc_limits, in HashMap iteration order *)
+  s_mac_crash : option (list macrec);
+  s_bootargs : option (list Z);              (* mac_boot_args and its bootargs, flattened *)
+  s_handles : option (list handle) }.
 
 (* names of enumeration-valued members; the tables are regenerated from the source on every run *)
 Definition nth_name (tbl : list (list Z)) (i : Z) : list Z := nth (Z.to_nat i) tbl [].
@@ -304,7 +325,35 @@ Definition os_name (i raw : Z) : list Z :=
   if i =? 8 then 48 :: 120 :: 48 :: 120 :: (if raw <? 16777216 then hex_fixed 6 raw else strip0 (hex_fixed 8 raw))
   else nth_name OS_NAMES i.
 
-Definition K (s : list Z) := s.
+(* basename(): the text after the last '/' or '\' *)
+Fixpoint basename_aux (s acc : list Z) : list Z :=
+  match s with
+  | [] => acc
+  | c :: t => if (c =? 47) || (c =? 92) then basename_aux t t else basename_aux t acc
+  end.
+Definition basename (s : list Z) : list Z := basename_aux s s.
+
+(* HashMap<String, _>::get *)
+Fixpoint lookup {A} (k : list Z) (l : list (list Z * A)) : option A :=
+  match l with
+  | [] => None
+  | (k', v) :: t => if list_eqb k k' then Some v else lookup k t
+  end.
+
+(* String order (UTF-8 byte order = code point order) and the stable sort of proc_limits by name *)
+Fixpoint str_leb (a b : list Z) : bool :=
+  match a, b with
+  | [], _ => true
+  | _ :: _, [] => false
+  | x :: a', y :: b' => if x <? y then true else if y <? x then false else str_leb a' b'
+  end.
+Fixpoint insert_limit (x : limit) (l : list limit) : list limit :=
+  match l with
+  | [] => [x]
+  | y :: t => if str_leb (li_name x) (li_name y) then x :: l else y :: insert_limit x t
+  end.
+Definition sort_limits (l : list limit) : list limit := fold_right insert_limit [] l.
+
 (* key names as code points *)
 Definition k_address := [97;100;100;114;101;115;115].
 Definition k_base_addr := [98;97;115;101;95;97;100;100;114].
@@ -335,7 +384,6 @@ Definition k_threads_index := [116;104;114;101;97;100;115;95;105;110;100;101;120
 Definition k_trust := [116;114;117;115;116].
 Definition k_type := [116;121;112;101].
 Definition k_unloaded_modules := [117;110;108;111;97;100;101;100;95;109;111;100;117;108;101;115].
-
 Definition k_access_type := [97;99;99;101;115;115;95;116;121;112;101].
 Definition k_adjusted_address := [97;100;106;117;115;116;101;100;95;97;100;100;114;101;115;115].
 Definition k_assertion := [97;115;115;101;114;116;105;111;110].
@@ -370,9 +418,44 @@ Definition k_status := [115;116;97;116;117;115].
 Definition k_system_info := [115;121;115;116;101;109;95;105;110;102;111].
 Definition k_was_low := [119;97;115;95;108;111;119].
 Definition k_was_non_canonical := [119;97;115;95;110;111;110;95;99;97;110;111;110;105;99;97;108].
+Definition k_inlines := [105;110;108;105;110;101;115].
+Definition k_last_error_value := [108;97;115;116;95;101;114;114;111;114;95;118;97;108;117;101].
+Definition k_cert_subject := [99;101;114;116;95;115;117;98;106;101;99;116].
+Definition k_code_id := [99;111;100;101;95;105;100].
+Definition k_corrupt_symbols := [99;111;114;114;117;112;116;95;115;121;109;98;111;108;115].
+Definition k_debug_file := [100;101;98;117;103;95;102;105;108;101].
+Definition k_debug_id := [100;101;98;117;103;95;105;100].
+Definition k_loaded_symbols := [108;111;97;100;101;100;95;115;121;109;98;111;108;115].
+Definition k_symbol_url := [115;121;109;98;111;108;95;117;114;108].
+Definition k_version := [118;101;114;115;105;111;110].
+Definition k_handles := [104;97;110;100;108;101;115].
+Definition k_handle := [104;97;110;100;108;101].
+Definition k_object_name := [111;98;106;101;99;116;95;110;97;109;101].
+Definition k_type_name := [116;121;112;101;95;110;97;109;101].
+Definition k_proc_limits := [112;114;111;99;95;108;105;109;105;116;115].
+Definition k_limits := [108;105;109;105;116;115].
+Definition k_name := [110;97;109;101].
+Definition k_soft := [115;111;102;116].
+Definition k_hard := [104;97;114;100].
+Definition k_unit := [117;110;105;116].
+Definition k_mac_crash_info := [109;97;99;95;99;114;97;115;104;95;105;110;102;111].
+Definition k_num_records := [110;117;109;95;114;101;99;111;114;100;115].
+Definition k_records := [114;101;99;111;114;100;115].
+Definition k_abort_cause := [97;98;111;114;116;95;99;97;117;115;101].
+Definition k_backtrace := [98;97;99;107;116;114;97;99;101].
+Definition k_dialog_mode := [100;105;97;108;111;103;95;109;111;100;101].
+Definition k_message := [109;101;115;115;97;103;101].
+Definition k_message2 := [109;101;115;115;97;103;101;50].
+Definition k_signature_string := [115;105;103;110;97;116;117;114;101;95;115;116;114;105;110;103].
+Definition k_thread := [116;104;114;101;97;100].
+Definition k_mac_boot_args := [109;97;99;95;98;111;111;116;95;97;114;103;115].
+Definition k_soft_errors := [115;111;102;116;95;101;114;114;111;114;115].
+Definition k_confidence := [99;111;110;102;105;100;101;110;99;101].
 Definition s_non_canonical := [110;111;110;45;99;97;110;111;110;105;99;97;108].
 Definition s_null_pointer := [110;117;108;108;45;112;111;105;110;116;101;114].
 Definition s_OK := [79;75].
+Definition s_unlimited := [117;110;108;105;109;105;116;101;100].
+Definition s_err := [101;114;114].
 
 Definition PANIC_MODULE_OFFSET : Z := 1501.
 Definition PANIC_FUNCTION_OFFSET : Z := 1502.
@@ -386,6 +469,9 @@ Fixpoint omap {A B} (f : A -> outcome B) (l : list A) : outcome (list B) :=
   | [] => Ret []
   | a :: t => do b <- f a; do bs <- omap f t; Ret (b :: bs)
   end.
+
+Definition json_of_inline (i : inline) : json :=
+  JObj [(k_file, jopt JStr (in_file i)); (k_function, JStr (in_function i)); (k_line, jopt JNum (in_line i))].
 
 (* one element of "frames"; [idx] is the enumerate() index *)
 Definition json_of_frame (p : profile) (w : pwidth) (idx : nat) (f : frame) : outcome json :=
@@ -402,9 +488,10 @@ Definition json_of_frame (p : profile) (w : pwidth) (idx : nat) (f : frame) : ou
     (k_frame, JNum (Z.of_nat idx));
     (k_function, jopt JStr (fr_function f));
     (k_function_offset, foff);
+    (k_inlines, match fr_inlines f with [] => JNull | l => JArr (map json_of_inline l) end);
     (k_line, jopt JNum (fr_line f));
     (k_missing_symbols, JBool (match fr_function f with Some _ => false | None => true end));
-    (k_module, jopt (fun m => JStr (fst m)) (fr_module f));
+    (k_module, jopt (fun m => JStr (basename (fst m))) (fr_module f));
     (k_module_offset, moff);
     (k_offset, jhex w (fr_instr f));
     (k_trust, JStr (trust_name (fr_trust f)));
@@ -425,18 +512,49 @@ Definition json_of_thread (p : profile) (w : pwidth) (t : thread) : outcome json
   Ret (JObj [
     (k_frame_count, JNum (Z.of_nat (length (th_frames t))));
     (k_frames, JArr fs);
+    (k_last_error_value, jopt JStr (th_last_error t));
     (k_thread_id, JNum (th_id t));
     (k_thread_name, jopt JStr (th_name t))]).
 
-Definition json_of_module (p : profile) (w : pwidth) (m : modul) : outcome json :=
+Definition default_stat : symstat := {| ss_url := None; ss_loaded := false; ss_corrupt := false; ss_extra := None |}.
+
+(* one element of "modules" *)
+Definition json_of_module (p : profile) (w : pwidth) (certs : list (list Z * list Z))
+                          (stats : list (list Z * symstat)) (m : modul) : outcome json :=
+  let name := basename (m_file m) in
+  let st := lookup name stats in
+  let had := match st with Some _ => true | None => false end in
+  let s := match st with Some s => s | None => default_stat end in
+  let dfile := match ss_extra s with Some e => fst e | None => m_debug_file m end in
+  let did := match ss_extra s with Some e => snd e | None => m_debug_id m end in
   do e <- chk_add p 64 PANIC_END_ADDR (m_base m) (m_size m);
-  Ret (JObj [(k_base_addr, jhex w (m_base m)); (k_end_addr, jhex w e); (k_filename, JStr (m_name m))]).
+  Ret (JObj [(k_base_addr, jhex w (m_base m));
+             (k_cert_subject, jopt JStr (lookup name certs));
+             (k_code_id, JStr (m_code_id m));
+             (k_corrupt_symbols, JBool (ss_corrupt s));
+             (k_debug_file, JStr (basename dfile));
+             (k_debug_id, JStr did);
+             (k_end_addr, jhex w e);
+             (k_filename, JStr name);
+             (k_loaded_symbols, JBool (ss_loaded s));
+             (k_missing_symbols, JBool (had && negb (ss_loaded s)));
+             (k_symbol_url, jopt JStr (ss_url s));
+             (k_version, jopt JStr (m_version m))]).
+
+(* one element of the top-level "unloaded_modules" *)
+Definition json_of_unloaded (p : profile) (w : pwidth) (certs : list (list Z * list Z)) (m : modul) : outcome json :=
+  do e <- chk_add p 64 PANIC_END_ADDR (m_base m) (m_size m);
+  Ret (JObj [(k_base_addr, jhex w (m_base m));
+             (k_cert_subject, jopt JStr (lookup (m_file m) certs));
+             (k_code_id, JStr (m_code_id m));
+             (k_end_addr, jhex w e);
+             (k_filename, JStr (m_file m))]).
 
 (* insert / append a member in an object, as serde_json::Map::insert on a fresh key does for a
    key that sorts at the given place *)
 Definition add_registers (regs : json) (fr : json) : json :=
   match fr with
-  | JObj l => JObj (firstn 9 l ++ (k_registers, regs) :: skipn 9 l)   (* after "offset" *)
+  | JObj l => JObj (firstn 10 l ++ (k_registers, regs) :: skipn 10 l)   (* after "offset" *)
   | x => x
   end.
 Definition json_registers (regs : list (list Z * Z * nat)) : json :=
@@ -445,8 +563,9 @@ Definition json_registers (regs : list (list Z * Z * nat)) : json :=
 (* the "crashing_thread" copy: threads[i] with threads_index appended and registers in frame 0 *)
 Definition crashing_copy (regs : json) (i : nat) (th : json) : json :=
   match th with
-  | JObj [(k1, c); (k2, JArr (f0 :: fs)); (k3, id); (k4, nm)] =>
-      JObj [(k1, c); (k2, JArr (add_registers regs f0 :: fs)); (k3, id); (k4, nm); (k_threads_index, JNum (Z.of_nat i))]
+  | JObj [(k1, c); (k2, JArr (f0 :: fs)); (k3, le); (k4, id); (k5, nm)] =>
+      JObj [(k1, c); (k2, JArr (add_registers regs f0 :: fs)); (k3, le); (k4, id); (k5, nm);
+            (k_threads_index, JNum (Z.of_nat i))]
   | x => x
   end.
 
@@ -463,7 +582,7 @@ Definition json_of_flip (w : pwidth) (b : flip) : json :=
                           (k_poison_registers, JBool (bf_poison b)); (k_was_low, JBool (bf_low b));
                           (k_was_non_canonical, JBool (bf_nc b))]);
         (k_source_register, jopt JStr (bf_reg b))].
-Definition json_of_crash (w : pwidth) (c : option crash) (req : option nat) : json :=
+Definition json_of_crash (w : pwidth) (c : option crash) (req : option nat) (assertion : option (list Z)) : json :=
   JObj [
     (k_address, jopt (fun c => jhex w (cr_addr c)) c);
     (k_adjusted_address,
@@ -473,7 +592,7 @@ Definition json_of_crash (w : pwidth) (c : option crash) (req : option nat) : js
                    | Some (AdjNull o) => JObj [(k_kind, JStr s_null_pointer); (k_offset, jhex w o)]
                    | None => JNull end
        | None => JNull end);
-    (k_assertion, JNull);
+    (k_assertion, jopt JStr assertion);
     (k_crash_inconsistencies, jopt (fun c => JArr (map (fun i => JStr (inconsistency_name i)) (cr_incons c))) c);
     (k_crashing_thread, jopt (fun i => JNum (Z.of_nat i)) req);
     (k_instruction, match c with Some c => jopt JStr (cr_instr c) | None => JNull end);
@@ -500,21 +619,44 @@ Definition json_of_sys (y : sysinfo) : json :=
         (k_cpu_microcode_version, jopt (fun n => JStr (48 :: 120 :: strip0 (hex_fixed 16 n))) (sy_microcode y));
         (k_os, JStr (os_name (sy_os y) (sy_os_raw y)));
         (k_os_ver, jopt JStr (sy_os_ver y))].
+Definition json_of_lim (l : lim) : json :=
+  match l with LErr => JStr s_err | LUnlimited => JStr s_unlimited | LLimited n => JNum n end.
+Definition json_of_limit (l : limit) : json :=
+  JObj [(k_hard, json_of_lim (li_hard l)); (k_name, JStr (li_name l)); (k_soft, json_of_lim (li_soft l));
+        (k_unit, JStr (li_unit l))].
+Definition json_of_macrec (w : pwidth) (r : macrec) : json :=
+  JObj [(k_abort_cause, jopt (jhex w) (mc_abort r));
+        (k_backtrace, jopt JStr (mc_backtrace r));
+        (k_dialog_mode, jopt (jhex w) (mc_dialog r));
+        (k_message, jopt JStr (mc_message r));
+        (k_message2, jopt JStr (mc_message2 r));
+        (k_module, jopt JStr (mc_module r));
+        (k_signature_string, jopt JStr (mc_signature r));
+        (k_thread, jopt (jhex w) (mc_thread r))].
+Definition json_of_handle (h : handle) : json :=
+  JObj [(k_handle, jopt JNum (h_handle h)); (k_object_name, jopt JStr (h_object h)); (k_type_name, jopt JStr (h_type h))].
 
+(* the whole report except "soft_errors" (a serde_json::Value passed through from the dump) and the binary32
+   "confidence" of each bit flip (serde_json's float writer; checked separately against C19's exact model) *)
 Definition json_of_state (p : profile) (s : state) : outcome json :=
   let w := s_width s in
   do threads <- omap (json_of_thread p w) (s_threads s);
-  do mods <- omap (json_of_module p w) (s_modules s);
-  do unl <- omap (json_of_module p w) (s_unloaded s);
-  let crash_info := json_of_crash w (s_crash s) (s_requesting s) in
+  do mods <- omap (json_of_module p w (s_certinfo s) (s_symstats s)) (s_modules s);
+  do unl <- omap (json_of_unloaded p w (s_certinfo s)) (s_unloaded s);
+  let crash_info := json_of_crash w (s_crash s) (s_requesting s) (s_assertion s) in
   let tail := [
+    (k_handles, jopt (fun l => JArr (map json_of_handle l)) (s_handles s));
     (k_linux_memory_map_count, jopt JNum (s_mapcount s));
     (k_lsb_release, jopt (fun l => let '(i, r, c, d) := l in
                                    JObj [(k_codename, JStr c); (k_description, JStr d); (k_id, JStr i); (k_release, JStr r)]) (s_lsb s));
+    (k_mac_boot_args, jopt JStr (s_bootargs s));
+    (k_mac_crash_info, jopt (fun l => JObj [(k_num_records, JNum (Z.of_nat (length l)));
+                                            (k_records, JArr (map (json_of_macrec w) l))]) (s_mac_crash s));
     (k_main_module, JNum 0);
     (k_modules, JArr mods);
-    (k_modules_contains_cert_info, JBool (s_cert s));
+    (k_modules_contains_cert_info, JBool (match s_certinfo s with [] => false | _ => true end));
     (k_pid, jopt JNum (s_pid s));
+    (k_proc_limits, jopt (fun l => JObj [(k_limits, JArr (map json_of_limit (sort_limits l)))]) (s_limits s));
     (k_status, JStr s_OK);
     (k_system_info, json_of_sys (s_sys s));
     (k_thread_count, JNum (Z.of_nat (length (s_threads s))));
